@@ -21,15 +21,18 @@ import (
 // remote endpoints) of EVERY admin address configured so far in the history.
 //
 //	step   = <local>@<remote>
-//	local  = n (no admin object) | d (admin.disabled) | a<id>   (id 0..1: a loopback TCP address)
+//	local  = n (no admin object) | d (admin.disabled) | a<id> (id 0..1: a loopback TCP address, default
+//	         origins) | t<id> (the same address, origins that exclude its own Host) | b (an address that
+//	         cannot be bound: the load must be rejected and change nothing)
 //	remote = ~ (no admin.remote) | a<id>=<acl>                (id 2..3; acl as in the req op)
 //
-// Answer: per step, for every address seen so far: L<id>:up|dn   R<id>:dn|<4 letters>, one letter per
+// Answer: per step, for every address seen so far: L<id>:dn|ok|no|mix   R<id>:dn|<4 letters>, one letter per
 // key: s served, m method refused, p path refused, r rejected (not a listed key: TLS or 401);
 // steps separated by " / ".
 
 type hstep struct {
-	local     string // "n", "d" or "a"
+	local     string // "n", "d", "a" (listen), "b" (an address that cannot be bound)
+	tight     bool   // origins that exclude the address's own Host
 	localID   int
 	remote    bool
 	remoteID  int
@@ -51,14 +54,18 @@ func parseHist(f []string) ([]hstep, bool) {
 		switch {
 		case parts[0] == "n" || parts[0] == "d":
 			h.local = parts[0]
+		case parts[0] == "b":
+			h.local = "b"
 		case parts[0] == "a0" || parts[0] == "a1":
 			h.local, h.localID = "a", int(parts[0][1]-'0')
+		case parts[0] == "t0" || parts[0] == "t1":
+			h.local, h.localID, h.tight = "a", int(parts[0][1]-'0'), true
 		default:
 			return nil, false
 		}
 		if parts[1] != "~" {
 			ra := strings.SplitN(parts[1], "=", 2)
-			if len(ra) != 2 || (ra[0] != "a2" && ra[0] != "a3") || h.local == "n" {
+			if len(ra) != 2 || (ra[0] != "a2" && ra[0] != "a3") || h.local == "n" || h.local == "b" {
 				return nil, false
 			}
 			h.remote, h.remoteID, h.aclString = true, int(ra[0][1]-'0'), ra[1]
@@ -101,6 +108,11 @@ func (p *prop) histConfig(h hstep, ports map[int]int) []byte {
 		admin["disabled"] = true
 	case "a":
 		admin["listen"] = "127.0.0.1:" + strconv.Itoa(ports[h.localID])
+		if h.tight {
+			admin["origins"] = []string{"c13-only.example"}
+		}
+	case "b":
+		admin["listen"] = "127.0.0.1:" + strconv.Itoa(ports[-1])
 	}
 	if h.remote {
 		c := &acase{acl: h.acl}
@@ -138,22 +150,56 @@ func (p *prop) histConfig(h hstep, ports map[int]int) []byte {
 	return b
 }
 
-// probeLocal: does anything answer HTTP on the address?
-func probeLocal(port int, wantUp bool) string {
-	deadline := time.Now().Add(3 * time.Second)
+// probeLocal: 32 GET /config/ requests, each on a new connection (two servers sharing the address
+// through SO_REUSEPORT both get their share), with the Host a client of that address naturally
+// sends. dn: nothing listens; ok: all served; no: all refused (Host not allowed); mix: both. `want`
+// only decides how long to wait for an asynchronous shutdown.
+func probeLocal(port int, want string) string {
+	deadline := time.Now().Add(4 * time.Second)
+	addr := "127.0.0.1:" + strconv.Itoa(port)
 	for {
-		conn, err := net.DialTimeout("tcp", "127.0.0.1:"+strconv.Itoa(port), time.Second)
-		up := err == nil
-		if up {
-			conn.Close()
-		}
-		if up == wantUp || time.Now().After(deadline) {
-			if up {
-				return "up"
+		got := func() string {
+			conn, err := net.DialTimeout("tcp", addr, time.Second)
+			if err != nil {
+				return "dn"
 			}
-			return "dn"
+			conn.Close()
+			served, refused, other := 0, 0, 0
+			for i := 0; i < 32; i++ {
+				client := &http.Client{Timeout: 3 * time.Second, Transport: &http.Transport{DisableKeepAlives: true}}
+				resp, err := client.Get("http://" + addr + "/config/")
+				if err != nil {
+					other++
+					continue
+				}
+				body := make([]byte, 512)
+				n, _ := resp.Body.Read(body)
+				resp.Body.Close()
+				switch {
+				case resp.StatusCode == 200:
+					served++
+				case classifyRefusal(resp.StatusCode, body[:n]) == "host":
+					refused++
+				default:
+					other++
+				}
+			}
+			switch {
+			case other > 0 && served == 0 && refused == 0:
+				return "dn"
+			case other > 0:
+				return "odd"
+			case refused == 0:
+				return "ok"
+			case served == 0:
+				return "no"
+			}
+			return "mix"
+		}()
+		if got == want || time.Now().After(deadline) {
+			return got
 		}
-		time.Sleep(20 * time.Millisecond)
+		time.Sleep(30 * time.Millisecond)
 	}
 }
 
@@ -244,6 +290,9 @@ func (p *prop) runHist(line string, f []string) core.Outcome {
 	for id := 0; id < 4; id++ {
 		ports[id] = freePort()
 	}
+	// what the property lets each address configured so far answer (the state after the last
+	// SUCCESSFUL load; a rejected load must leave it as it is)
+	wantL, wantR := map[int]string{}, map[int]string{}
 	curPats = nil
 	seenL, seenR := map[int]bool{}, map[int]bool{}
 	var res []string
@@ -253,14 +302,41 @@ func (p *prop) runHist(line string, f []string) core.Outcome {
 		}
 	}()
 	for i, h := range steps {
-		if err := caddy.Load(p.histConfig(h, ports), true); err != nil {
-			panic(fmt.Sprintf("hist op: caddy.Load of step %d failed: %v", i, err))
-		}
-		if h.local == "a" {
-			seenL[h.localID] = true
-		}
-		if h.remote {
-			seenR[h.remoteID] = true
+		if h.local == "b" {
+			// an admin address that cannot be bound: a foreign socket (no SO_REUSEPORT) holds the port
+			foreign, err := net.Listen("tcp", "127.0.0.1:0")
+			if err != nil {
+				panic(err)
+			}
+			ports[-1] = foreign.Addr().(*net.TCPAddr).Port
+			err = caddy.Load(p.histConfig(h, ports), true)
+			foreign.Close()
+			if err == nil {
+				out.Failures = append(out.Failures, core.Failure{Class: "unbindable-admin-address-accepted",
+					What: fmt.Sprintf("load %d names an admin address held by another socket, yet it was not rejected", i+1)})
+			}
+		} else {
+			if err := caddy.Load(p.histConfig(h, ports), true); err != nil {
+				panic(fmt.Sprintf("hist op: caddy.Load of step %d failed: %v", i, err))
+			}
+			for id := range wantL {
+				wantL[id] = "dn"
+			}
+			for id := range wantR {
+				wantR[id] = "dn"
+			}
+			if h.local == "a" {
+				seenL[h.localID] = true
+				wantL[h.localID] = map[bool]string{false: "ok", true: "no"}[h.tight]
+			}
+			if h.remote {
+				seenR[h.remoteID] = true
+				b := make([]byte, 4)
+				for k := range b {
+					b[k] = histExpect(h.acl, k)
+				}
+				wantR[h.remoteID] = string(b)
+			}
 		}
 		var parts []string
 		var ids []int
@@ -269,12 +345,18 @@ func (p *prop) runHist(line string, f []string) core.Outcome {
 		}
 		sort.Ints(ids)
 		for _, id := range ids {
-			wantUp := h.local == "a" && h.localID == id
-			got := probeLocal(ports[id], wantUp)
+			want := wantL[id]
+			got := probeLocal(ports[id], want)
 			parts = append(parts, fmt.Sprintf("L%d:%s", id, got))
-			if got == "up" && !wantUp {
-				out.Failures = append(out.Failures, core.Failure{Class: "local-admin-outlives-its-config",
-					What: fmt.Sprintf("after load %d (local endpoint: %s%d) the local admin endpoint of an EARLIER config (address %d) still accepts connections", i+1, h.local, h.localID, id)})
+			if got != want {
+				switch {
+				case want == "dn":
+					out.Failures = append(out.Failures, core.Failure{Class: "local-admin-outlives-its-config",
+						What: fmt.Sprintf("after load %d the local admin endpoint of an EARLIER config (address %d) still answers (%s)", i+1, id, got)})
+				case want == "no" && (got == "mix" || got == "ok"):
+					out.Failures = append(out.Failures, core.Failure{Class: "local-stale-origin-policy",
+						What: fmt.Sprintf("after load %d the running config allows only the origin c13-only.example on local address %d, yet requests with the Host 127.0.0.1:<port> are served there (%s of 32: an endpoint with the policy of an earlier config is still listening)", i+1, id, got)})
+				}
 			}
 		}
 		ids = nil
@@ -283,26 +365,19 @@ func (p *prop) runHist(line string, f []string) core.Outcome {
 		}
 		sort.Ints(ids)
 		for _, id := range ids {
-			want := "dn"
-			if h.remote && h.remoteID == id {
-				b := make([]byte, 4)
-				for k := range b {
-					b[k] = histExpect(h.acl, k)
-				}
-				want = string(b)
-			}
+			want := wantR[id]
 			got := p.probeRemote(ports[id], want)
 			parts = append(parts, fmt.Sprintf("R%d:%s", id, got))
 			if got != want {
 				switch {
 				case want == "dn":
 					out.Failures = append(out.Failures, core.Failure{Class: "remote-admin-outlives-its-config",
-						What: fmt.Sprintf("after load %d, whose config has %s, the remote admin endpoint of an EARLIER config (address %d) is still up and answers the keys 0..3 with %q (s = served): it enforces an access list that is no longer configured", i+1, map[bool]string{true: "its remote endpoint elsewhere", false: "no admin.remote"}[h.remote], id, got)})
+						What: fmt.Sprintf("after load %d, whose running config has no remote endpoint on address %d, the remote admin endpoint of an EARLIER config is still up there and answers the keys 0..3 with %q (s = served): it enforces an access list that is no longer configured", i+1, id, got)})
 				case got != "dn":
 					for k := 0; k < 4; k++ {
 						if got[k] == 's' && want[k] != 's' {
 							out.Failures = append(out.Failures, core.Failure{Class: "remote-stale-access-list",
-								What: fmt.Sprintf("after load %d key %d is served on the remote endpoint although the CURRENT access list %s does not authorise it (answers %q, expected %q)", i+1, k, h.aclString, got, want)})
+								What: fmt.Sprintf("after load %d key %d is served on the remote endpoint although the CURRENT access list does not authorise it (answers %q, expected %q)", i+1, k, got, want)})
 							break
 						}
 					}
